@@ -361,13 +361,24 @@ pub fn visible_importables_in_crate<'db>(
 }
 
 /// Query implementation of [LspHelpers::visible_importables_in_crate].
-#[salsa::tracked(returns(clone))]
+#[salsa::tracked(returns(clone), cycle_result=visible_importables_in_crate_cycle)]
 pub fn visible_importables_in_crate_tracked<'db>(
     db: &'db dyn Database,
     crate_id: CrateId<'db>,
     user_module_id: ModuleId<'db>,
 ) -> Arc<Vec<(ImportableId<'db>, String)>> {
     visible_importables_in_crate(db, crate_id, user_module_id)
+}
+
+/// Cycle handling for [visible_importables_in_crate_tracked]: a crate that (transitively) imports
+/// its own root (e.g. `use crate;`) adds no importables through that import.
+fn visible_importables_in_crate_cycle<'db>(
+    _db: &'db dyn Database,
+    _id: salsa::Id,
+    _crate_id: CrateId<'db>,
+    _user_module_id: ModuleId<'db>,
+) -> Arc<Vec<(ImportableId<'db>, String)>> {
+    Arc::new(Vec::new())
 }
 
 /// Implementation of [LspHelpers::visible_importables_from_module].
